@@ -162,7 +162,7 @@ def boundary_texts(rng, quick):
         (0, '"d" query { a }'), (0, '"""d""" query Q($a: Int) @x { a }'), (0, "query ($a: Int = 1 @d, $b: [T!]!) { a }"),
         (0, 'query Q("desc" $a: Int, """block\n  desc""" $b: Int) { a }'),
         (0, "scalar S { a }"), (0, "type T query { a }"), (0, "enum E query { a }"), (0, "type T { a: Int } { a }"),
-        (0, "extend schema @d { a }"), (0, "union U = A | B { a }"), (0, "scalar S @d(a: {b: 1}) { a }"),
+        (0, "extend schema @d query { a }"), (0, "union U = A | B { a }"), (0, "scalar S @d(a: {b: 1}) { a }"),
         (0, "{ a } { b }"), (0, "fragment F on T { a } { b }"), (0, "{ a(x: {}) b(y: []) }"),
         (0, '{ a(s: """block""", t: "q", u: """\n  two\n    lines\n""") }'),
         (0, '{ a(arg: """\n    indented\n  less\n""") { b(arg: """x\ny""") } }'),
@@ -344,6 +344,54 @@ def core(ck, tier, model_ok):
         ck.exhaustive = False
 
 
+def wire_to_node(w, i=0):
+    """wire (Ast.enc_node) -> (implementation node, next index)."""
+    import inspect
+
+    from graphql.language import ast
+    from graphql.language.ast import OperationType
+    global _CLASSES
+    try:
+        _CLASSES
+    except NameError:
+        _CLASSES = {}
+        for _n, cls in inspect.getmembers(ast, inspect.isclass):
+            k = getattr(cls, "kind", None)
+            if issubclass(cls, ast.Node) and k in pc.KIND_INDEX and not _n.startswith("Const"):
+                _CLASSES.setdefault(k, cls)
+    cls = _CLASSES[pc.KINDS[w[i]]]
+    n = w[i + 1]
+    i += 2
+    vals = []
+    for _ in range(n):
+        t = w[i]
+        i += 1
+        if t == 0:
+            vals.append(None)
+        elif t == 1:
+            x, i = wire_to_node(w, i)
+            vals.append(x)
+        elif t == 2:
+            m = w[i]
+            i += 1
+            l = []
+            for _ in range(m):
+                x, i = wire_to_node(w, i)
+                l.append(x)
+            vals.append(tuple(l))
+        elif t == 3:
+            m = w[i]
+            vals.append("".join(map(chr, w[i + 1:i + 1 + m])))
+            i += 1 + m
+        elif t == 4:
+            vals.append(bool(w[i]))
+            i += 1
+        else:
+            vals.append(list(OperationType)[w[i]])
+            i += 1
+    return cls(**dict(zip(pc.node_fields(cls), vals))), i
+
+
 def replay(path):
     """Re-evaluate a recorded failing tree on the current /repo and the current model."""
     d = json.loads(open(path).read())
@@ -355,6 +403,20 @@ def replay(path):
     has = (common.COQ / "theories" / THMS).exists()
     br = common.build(PID, models=(MODEL,), extra_targets=(f"theories/{THMS}o",) if has else ())
     want = Model(MODEL).run_batch([[2] + w])[0] if br.ok else None
+    tree = wire_to_node(w)[0]
+    got = impl_print(tree)
+    print("impl now :", describe(got))
     print("model now:", describe(want) if want is not None else "(model not built)")
-    print("(the implementation side needs the tree object: re-run ./check CPRINTER to re-evaluate it)")
-    return 0
+    fails = want is not None and got != want
+    if got[0] == 0 and d.get("kind") == "print" and "roundtrip" in d.get("relation", ""):
+        text = from_cps(got[1:])
+        try:
+            d2 = pc.impl_call(d.get("entry", 0), text, None, d.get("xfa", False), d.get("xdd", False))
+            same = pc.enc_node(d2) == w
+        except Exception as e:  # noqa: BLE001
+            same = False
+            print("re-parse :", type(e).__name__, str(e)[:100])
+        print("parse(print_ast(t)) == t:", same)
+        fails |= not same
+    print("FAILS" if fails else "passes")
+    return 1 if fails else 0
